@@ -26,6 +26,9 @@ def render(O, v, items, level, tv, lines):
             lines.append(f'{pad}{it[1]} float = {O.lit(getattr(v, it[2]))}')
         elif it[0] == 'mod':
             lines.append(f'{pad}{it[1]} = {O.lit(getattr(v, it[2]))}')
+        elif it[0] == 'unit':           # a $unit line and a node that uses the unit
+            lines.append(f'{pad}$unit {it[1]} = 2 m')
+            lines.append(f'{pad}{it[2]} float = {O.lit(getattr(v, it[3]))} [{it[1]}]')
         elif it[0] == 'ref':            # a node whose value is a reference to / an expression over an earlier node
             lines.append(f'{pad}{it[1]} float = ' + ('{?' + it[2] + '}' if it[3] == 'ref' else '("{?' + it[2] + '} + 1")'))
         elif it[0] == 'group':          # a group header line (no type, no value) with children one level deeper
@@ -47,6 +50,9 @@ def expected(v, items, tv, active, acc):
         if it[0] in ('node', 'mod'):
             if active:
                 acc[it[1]] = getattr(v, it[2])
+        elif it[0] == 'unit':
+            if active:
+                acc[it[2]] = getattr(v, it[3])
         elif it[0] == 'ref':
             if active:
                 acc[it[1]] = acc[it[2]] if it[3] == 'ref' else acc[it[2]] + 1
@@ -82,7 +88,8 @@ def run(v, O):
     out.append(('order of first appearance', O.same([k for k in data.keys() if k in want], [k for k in want.keys() if k in data])))
     for k, val in want.items():
         if k in data:
-            out.append((f'value of {k} is its last effective assignment', O.eq(data[k], val)))
+            got = data[k][0] if isinstance(data[k], tuple) else data[k]        # nodes with a unit come as (value, unit)
+            out.append((f'value of {k} is its last effective assignment', O.eq(got, val)))
     return out
 '''
 BAD_SRC = '''
@@ -173,6 +180,11 @@ CURATED = [
     ('an expression closes a block by indentation', [N('a', 'x1'), ('block', [('case', 'c1', [N('h', 'x2')]), ('case', 'c2', [N('k', 'x3')])], 'dedent'), ('ref', 'b', 'a', 'expr')]),
     ('a reference closes two nested blocks at once', [N('a', 'x1'), ('block', [('case', 'c1', [('block', [('case', 'c2', [N('i', 'x2')])], 'dedent')])], 'dedent'), ('ref', 'b', 'a', 'ref')]),
     ('a reference inside a clause and one closing it', [N('a', 'x1'), ('block', [('case', 'c1', [('ref', 'p', 'a', 'expr')]), ('else', None, [('ref', 'q', 'a', 'ref')])], 'dedent'), ('ref', 'b', 'a', 'expr')]),
+    ('a $unit line closes a block by indentation', [('block', [('case', 'c1', [N('h', 'x1')])], 'dedent'), ('unit', 'len', 'w', 'x2'), N('z', 'x3')]),
+    ('a $unit line closes a two-clause block by indentation', [('block', [('case', 'c1', [N('h', 'x1')]), ('case', 'c2', [N('k', 'x2')])], 'dedent'), ('unit', 'len', 'w', 'x3')]),
+    ('a $unit line inside a clause', [('block', [('case', 'c1', [('unit', 'len', 'w', 'x1')]), ('else', None, [N('e', 'x2')])], 'end'), N('z', 'x3')]),
+    ('a reference to a node of the same clause', [('block', [('case', 'c1', [N('h', 'x1'), ('ref', 'p', 'h', 'ref')]), ('else', None, [N('e', 'x2'), ('ref', 'q', 'e', 'expr')])], 'end'), N('z', 'x3')]),
+    ('a reference to a node of the same clause, nested', [('block', [('case', 'c1', [('block', [('case', 'c2', [N('i', 'x1'), ('ref', 'r', 'i', 'ref')])], 'dedent'), N('m', 'x2')])], 'dedent'), N('o', 'x3')]),
     ('empty-ish: only else selected branch has nodes', [('block', [('case', 'c1', []), ('else', None, [N('e', 'x1')])], 'dedent'), N('o', 'x2')]),
 ]
 
@@ -212,6 +224,8 @@ def _vals(items):
     for it in items:
         if it[0] in ('node', 'mod'):
             yield it[2]
+        elif it[0] == 'unit':
+            yield it[3]
         elif it[0] == 'ref':
             pass
         elif it[0] == 'group':
@@ -227,6 +241,8 @@ def _brief(items):
     for it in items:
         if it[0] in ('node', 'mod'):
             out.append(it[1] + ('=' if it[0] == 'mod' else ''))
+        elif it[0] == 'unit':
+            out.append('$' + it[1] + ',' + it[2])
         elif it[0] == 'ref':
             out.append(it[1] + '<-' + it[2])
         elif it[0] == 'group':
